@@ -174,6 +174,61 @@ def _fmt(t):
     return str(t)
 
 
+def pointer_range_loops(chk, prog, rule="no-pointer-range-loop-over-generic-elements"):
+    """A loop whose exit test compares two raw pointers to a *generic* element type (`while next != end` with
+    `end = start.add(len)`) runs zero times when the element type is zero-sized, whatever `len` is: `add` does not
+    move a pointer to a ZST. In a builder this completes an allocation none of whose elements was constructed (seed
+    C18-c). Counting loops and the std slice iterators (which special-case ZSTs) are not affected."""
+    n = 0
+    for d_raw, key in prog.seed.items():
+        b = prog.bodies[key]
+        if not b["span"]["f"].endswith((".rs",)):
+            continue
+        n += 1
+        defs = {}
+        for bb in b["blocks"]:
+            for st in bb["s"]:
+                if st["k"] == "assign" and not st["p"]["p"]:
+                    defs.setdefault(st["p"]["l"], []).append(st["r"])
+
+        def ptr_to_param(op):
+            if op.get("k") not in ("copy", "move") or op["p"]["p"]:
+                return False
+            try:
+                t = prog.ty(b["locals"][op["p"]["l"]])
+            except (IndexError, KeyError):
+                return False
+            inner = None
+            if t.get("k") == "ptr":
+                inner = prog.ty(t["ty"])
+            elif t.get("k") == "adt" and t.get("def") == "core::ptr::non_null::NonNull" and t.get("args"):
+                x = t["args"][0].get("ty")
+                inner = prog.ty(x) if x is not None else None
+            return bool(inner) and inner.get("k") == "param"
+
+        def is_ptr_cmp(op, depth=0):
+            if depth > 4 or op.get("k") not in ("copy", "move") or op["p"]["p"]:
+                return False
+            for r in defs.get(op["p"]["l"], []):
+                if r["k"] == "binop" and r["op"] in ("Eq", "Ne", "Lt", "Le", "Gt", "Ge") and ptr_to_param(r["a"]) and ptr_to_param(r["b"]):
+                    return True
+                if r["k"] in ("use", "unop") and is_ptr_cmp(r["o"], depth + 1):
+                    return True
+            return False
+        bad = []
+        for bi, bb in enumerate(b["blocks"]):
+            t = bb["t"]
+            if t and t["k"] == "switch" and is_ptr_cmp(t["o"]) and bi in cfg.reach_from(b, cfg.normal_succs(bb), unwind=False):
+                bad.append(t["l"])
+        if bad:
+            chk.inst(rule, norm(d_raw), False,
+                     detail="`%s` has a loop whose exit test compares raw pointers to a generic element type (line %s): for a "
+                            "zero-sized element type the loop body never runs, so no element is constructed although the "
+                            "allocation is completed with its full length" % (norm(d_raw), bad),
+                     loc="%s:%s" % (b["span"]["f"], bad[0]))
+    chk.inst(rule, "crate", True, nontrivial=False, sample={"bodies_scanned": n})
+
+
 # allocation functions that (documentedly) do not keep the value they are given
 VALUE_NOT_KEPT = {
     "zst_cache::ZstCache::alloc": "returns the cache's shared pointer for a cacheable ZST; the passed (zero-sized) value is given up "
